@@ -390,7 +390,13 @@ def evaluate(ctx, ev, cfg, clean, case, recs, stats):
                     same = (mm["out"][:2] == real["out"][:2]) and mm["vis"] == real["vis"] and \
                         (mm["load"].startswith("ok") == real["loadok"] or real["vis"] == "0")
                     if sync:
-                        same = same and ab.norm_fs(mm["fs"]) == real["fs"] and mm.get("tr", "") == real["tr"]
+                        exact = ab.norm_fs(mm["fs"]) == real["fs"] and mm.get("tr", "") == real["tr"]
+                        # single-thread processor, several savers: kill_spies stops at the first saver that is
+                        # already closed (RuntimeError "already closed"), so a saver after it is never closed --
+                        # its trace is then a proper prefix of the model's (same outcome, same visibility)
+                        cut_short = bool(plan) and len(rec["aevents"]) > 1 and real["out"] == "err" and \
+                            (mm.get("tr", "") + ",").startswith(real["tr"] + ",")
+                        same = same and (exact or cut_short)
                     match[v] = same
                 worker_fault = bool(plan) and bool(finfo[3].get("worker"))
                 if match[EXPECTED_MODEL]:
@@ -660,7 +666,7 @@ def run(ctx):
     configs = thorough_configs() if ctx.thorough else QUICK_CONFIGS
     # seconds for the fault sweep (counted from its start); what does not fit is reported in the evidence
     # (anchor / constant drift escalates the quick tier: thorough fault actions, longer budget)
-    budget = float(os.environ.get("C04_BUDGET", 0) or ((24 * 60) if ctx.thorough else 130 if ctx.escalated() else 100))
+    budget = float(os.environ.get("C04_BUDGET", 0) or ((24 * 60) if ctx.thorough else 95 if ctx.escalated() else 75))
     nproc = min(16, os.cpu_count() or 4)
     dist = {}
     crossx = []
@@ -669,7 +675,9 @@ def run(ctx):
             # corpus first
             for obj in load_corpus():
                 replay(ctx, obj, pool=pool)
+            phases = {"pool_start": round(time.time() - t_start, 1)}
             cleans = list(pool.map(_w_clean, configs))
+            phases["clean_runs"] = round(time.time() - t_start, 1)
             ev = Eval()
             all_cases = []
             for ci, (cfg, clean) in enumerate(zip(configs, cleans)):
@@ -747,12 +755,16 @@ def run(ctx):
                 if len(crossx) < 40 and (r["id"][0] * 7919 + r["id"][1] * 31 + ctx.seed) % 37 == 0:
                     crossx.append((cfg, clean, c, r["recs"]))
             skipped = len(order) - done_cases
+            phases["sweep_done"] = round(time.time() - t_start, 1)
             ev.run()
+            phases["model_evaluated"] = round(time.time() - t_start, 1)
     finally:
         shutil.rmtree(TMP, ignore_errors=True)
 
     # extraction cross-check inside Coq on a sample of replay lines
     n_x, xfails = crosscheck(ctx, crossx)
+    phases["coq_crosscheck"] = round(time.time() - t_start, 1)
+    ctx.coverage["phase_seconds_since_start"] = phases
     ctx.count("trace_validation", len(configs), len(configs), {cfg_name(c): 1 for c in configs})
     ctx.coverage["distribution"]["fault_sweep"] = dist
     ctx.coverage["rule"] = ("fault_sweep: one evaluation = one Context.make run observed by a fresh Context; a case is non-trivial "
@@ -800,7 +812,7 @@ def crosscheck(ctx, crossx):
                 allow = not vb[si].get(runner.key_dtype(k), False)
                 lines.append(line_replay(allow, clean["expected"][k], fs0, aevs))
                 metas.append((allow, clean["expected"][k], fs0, aevs))
-    lines, metas = lines[:60], metas[:60]
+    lines, metas = lines[:20], metas[:20]
     outs = lib.run_model("C04", lines) if lines else []
     for (allow, expected, fs0, aevs), out in zip(metas, outs):
         m = parse_out(out)
